@@ -1,4 +1,6 @@
 """C17 - native-Python codec round trip and Python-value encoding equivalence (E1)."""
+import itertools
+
 from mc.checks import codec_matrix as CM
 from mc.core.runner import guarded, Result, pyasn1_site, exc_text
 from mc.model import x690 as M
@@ -16,7 +18,7 @@ RULE = ('E1 exhaustive: every (type, value) of universe slices LEAF, BIG, REC(st
         '(1) native.decode(native.encode(obj), asn1Spec=T) has the same abstract content (REAL compared as floats, '
         'rel 1e-12); (2) for each of BER (definite; indefinite; maxChunkSize=2; indefinite+maxChunkSize=1), CER, DER: '
         'encode(plain Python tree, asn1Spec=T, **opts) == encode(value object, **opts), '
-        'OPTIONAL members absent from the mapping (types containing ANY excluded for this path). Non-trivial = '
+        'OPTIONAL members absent from the mapping (types containing ANY excluded for this path); (3) the same for BER/CER/DER with the tree produced by the native encoder (types containing REAL excluded: floats round). Non-trivial = '
         'constructed type or boundary value; distinct = digest of (T, v, clause, codec).')
 ASSUMPTIONS = [
     'the plain Python tree is built by mc.bind.pyasn1_bind.py_tree: dict for SEQUENCE/SET/CHOICE, list for '
@@ -132,12 +134,21 @@ def check_case(idx, sl, T, v, R):
     if 'any' in feats0:
         return
     tree = B.py_tree(T, v)
-    for ename, enc, opts in ENCODERS:
+    trees = [('pyvalue', tree)]
+    if 'real' not in feats0:
+        # the library's own idea of the plain Python tree (NULL is None there): the native encoder's output
+        try:
+            trees.append(('pyvalue.native_tree', nat_enc.encode(B.build(T, v, spec))))
+        except Exception:
+            pass
+    for (clause, tree), (ename, enc, opts) in itertools.product(trees, ENCODERS):
+        if clause != 'pyvalue' and (opts or tree is None):
+            continue
         if 'chunk' in ename and not U.has_string(T):
             continue
         R.evaluations += 1
-        R.nontrivial((T, M.freeze(v), 'pyvalue', ename))
-        feats = feats0 | {'pyvalue', 'enc:' + ename}
+        R.nontrivial((T, M.freeze(v), clause, ename))
+        feats = feats0 | {'pyvalue', 'enc:' + ename} | ({'native_tree'} if clause != 'pyvalue' else set())
         if has_absent_optional(T, v):
             feats.add('absent_optional')
         if absent_all_optional_record(T, v):
@@ -154,15 +165,52 @@ def check_case(idx, sl, T, v, R):
         try:
             got = enc(tree, asn1Spec=spec, **opts)
         except Exception as e:
-            R.violation('pyvalue.error', dict(rec, enc=ename, tree=repr(tree)), exc_text(e) + ' for %r' % (tree,),
+            R.violation(clause + '.error', dict(rec, enc=ename, tree=repr(tree)), exc_text(e) + ' for %r' % (tree,),
                         ref[:40].hex(), pyasn1_site(e), feats, idx)
             continue
         if got != ref:
-            R.violation('pyvalue.bytes', dict(rec, enc=ename, tree=repr(tree)), got[:60].hex() + ' for %r' % (tree,),
+            v_py = v
+            if clause != 'pyvalue':
+                # the abstract value the native tree stands for (the native encoder materialises an absent
+                # all-optional record: recorded finding K11)
+                try:
+                    v_py = B.abs_of(nat_dec.decode(tree, asn1Spec=spec), T, spec)
+                except Exception:
+                    v_py = v
+            feats = feats | explain_paths(T, v, ename.split('/')[0], opts, ref, got, clause != 'pyvalue', v_py)
+            R.violation(clause + '.bytes', dict(rec, enc=ename, tree=repr(tree)), got[:60].hex() + ' for %r' % (tree,),
                         ref[:60].hex(), ename + '.encoder', feats, idx)
         else:
             for f in feats:
                 R.features[f] += 1
+
+
+OBJ_FLAGS = ('K1', 'K2', 'K3', 'K4', 'K11')
+PY_FLAGS = ('K1', 'K2', 'K3', 'K4', 'K9')
+
+
+def explain_paths(T, v, codec, opts, ref, got, native_tree=False, v_py=None):
+    """both outputs are byte-identical to the emulation of the recorded defects of their path (the value-object
+    path has K11, the value-plus-schema path has K9): name the defects that make them differ"""
+    from mc.model import emu
+    dm, ch = opts.get('defMode', True), opts.get('maxChunkSize', 0)
+    PY = PY_FLAGS + (('K9n',) if native_tree else ())
+    try:
+        v_py = v if v_py is None else v_py
+        if emu.predict(T, v, codec, OBJ_FLAGS, dm, ch) != ref or emu.predict(T, v_py, codec, PY, dm, ch) != got:
+            return set()
+        out = set()
+        if not M.values_equal(T, v, v_py):
+            if not absent_all_optional_record(T, v):
+                return set()
+            out.add('kf:K11')
+        if emu.predict(T, v_py, codec, [f for f in PY if f not in ('K9', 'K9n')], dm, ch) != got:
+            out.add('kf:K9')
+        if emu.predict(T, v, codec, [f for f in OBJ_FLAGS if f != 'K11'], dm, ch) != ref:
+            out.add('kf:K11')
+        return out
+    except Exception:
+        return set()
 
 
 def contains_empty_bits(T, v):
